@@ -20,7 +20,7 @@ def add(pid, level, technique, text, note, design_ref):
 
 add("C09", "exploration",
     "property-based testing (Hypothesis-generated trees) with exact enumeration of every shuffle outcome vs brute-force linear extensions",
-    "For each generated tree (<=7 data points) the sampler's exact law is enumerated and compared with the brute-forced set of compatible orders and -log|L|; bounded search, no absence proof.",
+    "For each generated tree (<=7 data points) the sampler's exact law is enumerated and compared with the brute-forced set of compatible orders and -log|L|; the order each sampler (burn-in, particle Gibbs) actually hands to its SMC pass is recorded at the SMC sampler's constructor and must be one of those orders; bounded search, no absence proof.",
     "Trusts the EnumRNG outcome enumeration (self-checked: probabilities sum to 1) and the brute-force permutation filter (cross-checked against a closed form).",
     "DESIGN.md section 5 C09")
 
@@ -70,7 +70,7 @@ add("C15", "exploration",
 
 add("C05", "exploration",
     "property-based testing against a reference model (PyClone mixture re-derived with scipy pmfs) through the file loader; metamorphic normalisation over all alternate counts; cluster-sum and outlier-term identities",
-    "Generated input tables (counts incl. zero/extreme depth, copy numbers, tumour content, error rates, both densities, precision, grid, clustering) are loaded from disk and every grid entry compared (1e-8 / 1e-6 relative) with an independent model; normalisation tables must sum to 1.",
+    "Generated input tables (counts incl. zero/extreme depth, copy numbers, tumour content, error rates, both densities, precision, grid, clustering) are loaded from disk and every grid entry compared (1e-8 / 1e-6 relative) with an independent model; normalisation tables must sum to 1. The run command's handling of the outlier/loss-probability options is observed in front of the chains (chain function replaced by a recorder): documented no-op options must not change the prior terms, user-provided cluster priors are taken as given, all chains get the same data and setting.",
     "Trusts scipy.stats binom/betabinom and logsumexp; reads grids at load_data's output.",
     "DESIGN.md section 5 C05")
 add("C17", "exploration",
